@@ -3,7 +3,7 @@
     Spec: Spec04.v ([Dec] = decoding of the whole byte string, [eol_norm] = XML line-end normalisation; neither
     mentions reads or buffers).  Model: Model04.v (XMLReader.cpp).  Contract on the transcoder: Contract04.v. *)
 From XV Require Import C04.Spec04 C04.Model04 C04.Contract04 C04.Proofs04a C04.Proofs04b C04.Proofs04c C04.Proofs04d C04.Proofs04e
-                       C04.Proofs04f C04.Proofs04g C04.Proofs04h C04.Inst04.
+                       C04.Proofs04f C04.Proofs04g C04.Proofs04h C04.Inst04 C04.Spec04t C04.Model04b C04.Proofs04i.
 From Coq Require Import Lia.
 Local Open Scope N_scope.
 
@@ -229,6 +229,102 @@ Proof.
            (T04_real_sizes_ok_6 0 v11 lw fill safe) Hne D Hnb Hf).
 Qed.
 Print Assumptions T04_chars_utf8_real.
+
+(* ------------------------------------------------------------------------------------------- *)
+(** * T04_tokens, character-level operations at FULL strength (Spec04t.v: functions of position and remaining characters).
+    In every reachable state [St r cs st] -- any chunking, any buffer alignment, any input status -- the operation returns
+    exactly the specified answer, leaves the reader at the specified line/column and with exactly the specified
+    characters remaining; a transcoder error can only be the one the input's status allows, a model fault never.
+    [nelcol c = true] = the column repair of finding FD (fixes/C04-nel-column.patch); without it see
+    T04_column_depends_on_alignment_refuted below. *)
+Theorem T04_tokens_chars : forall step maxSeq c r cs st,
+  xcontract step (X c) maxSeq -> sizes_ok c maxSeq -> nelcol c = true -> St step c r cs st ->
+  okres st (get_next c r) (fun a => tkpost step c st (tk_get (nel c) (rpos r) cs) (fst a) (snd a)) /\
+  (forall notc, okres st (get_next_if_not c r notc)
+                      (fun a => tkpost step c st (tk_get_if_not (nel c) notc (rpos r) cs) (fst a) (snd a))) /\
+  (forall ch, okres st (skipped_char c r ch) (fun a => tkpost step c st (tk_skipped_char ch (rpos r) cs) (fst a) (snd a))) /\
+  okres st (skip_if_quote c r) (fun a => tkpost step c st (tk_skip_if_quote (rpos r) cs) (fst a) (snd a)) /\
+  okres st (skipped_space c r) (fun a => tkpost step c st (tk_skipped_space (isWS c) (nel c) (rpos r) cs) (fst a) (snd a)).
+Proof.
+  intros step maxSeq c r cs st HC HS Hn H. repeat split.
+  - exact (get_next_tk step maxSeq c HC HS Hn r cs st H).
+  - intros notc. exact (get_next_if_not_tk step maxSeq c HC HS Hn r cs st notc H).
+  - intros ch. exact (skipped_char_tk step maxSeq c HC HS r cs st ch H).
+  - exact (skip_if_quote_tk step maxSeq c HC HS r cs st H).
+  - exact (skipped_space_tk step maxSeq c HC HS Hn r cs st H).
+Qed.
+Print Assumptions T04_tokens_chars.
+
+(** skipSpaces, getSpaces, getUpToCharOrWS: the longest run of white space (resp. of characters that are neither white space
+    nor the given one) with line-end handling, [tk_run]; the same function of the characters however many refills the run spans *)
+Theorem T04_tokens_runs : forall step maxSeq c fuel r cs st,
+  xcontract step (X c) maxSeq -> sizes_ok c maxSeq -> nelcol c = true -> St step c r cs st -> (2 * length cs + 2 <= fuel)%nat ->
+  okres st (skip_spaces c fuel r false)
+        (fun a => let sp := tk_run (isWS c) (nel c) (rpos r) [] cs in
+                  St step c (fst a) (snd sp) st /\
+                  snd a = (fst (fst (fst sp)), match snd (fst (fst sp)) with [] => false | _ => true end) /\
+                  rpos (fst a) = snd (fst sp)) /\
+  okres st (get_spaces c fuel r)
+        (fun a => let sp := tk_run (isWS c) (nel c) (rpos r) [] cs in
+                  St step c (fst a) (snd sp) st /\ snd a = (fst (fst (fst sp)), rev (snd (fst (fst sp)))) /\
+                  rpos (fst a) = snd (fst sp)) /\
+  (forall ch, isWS c 0xA = true ->
+     okres st (get_up_to c fuel r ch)
+        (fun a => let sp := tk_run (upto_take c ch) (nel c) (rpos r) [] cs in
+                  St step c (fst a) (snd sp) st /\ snd a = (fst (fst (fst sp)), rev (snd (fst (fst sp)))) /\
+                  rpos (fst a) = snd (fst sp))).
+Proof.
+  intros step maxSeq c fuel r cs st HC HS Hn H Hf. split; [|split].
+  - exact (skip_spaces_tk step maxSeq c HC HS Hn fuel r cs st H Hf).
+  - exact (get_spaces_tk step maxSeq c HC HS Hn fuel r cs st H Hf).
+  - intros ch Hlf. exact (get_up_to_tk step maxSeq c HC HS Hn fuel r cs st ch Hlf H Hf).
+Qed.
+Print Assumptions T04_tokens_runs.
+
+(** movePlainContentChars moves a prefix of the run of plain content characters -- how long a prefix depends on the buffer
+    BY DESIGN (the scanners call it in a loop) -- advances the column by exactly that many and leaves exactly the rest;
+    it stops early only at the end of the buffer.  (The character-data loop around it: Model04b.content_run, correspondence only.) *)
+Theorem T04_move_plain : forall step maxSeq c isPlain r cs st,
+  xcontract step (X c) maxSeq -> sizes_ok c maxSeq -> St step c r cs st ->
+  okres st (move_plain isPlain r)
+        (fun a => let k := length (snd a) in
+                  snd a = firstn k (plain_run isPlain cs) /\ (k <= length (plain_run isPlain cs))%nat /\
+                  St step c (fst a) (skipn k cs) st /\ rpos (fst a) = col1 (rpos r) (N.of_nat k) /\
+                  (ccur (fst a) = [] \/ exists x t, skipn k cs = x :: t /\ isPlain x = false)).
+Proof. intros step maxSeq c isPlain r cs st HC HS H. exact (move_plain_tk step c isPlain r cs st H). Qed.
+Print Assumptions T04_move_plain.
+
+(** FD: as written (nelcol = false) handleEOL does not count a column for U+0085 / U+2028 under XML 1.0 rules, but
+    movePlainContentChars (and skippedChar, getName, ...) do: the same characters consumed by the scanner's loop
+    "movePlainContentChars; getNextChar" leave a different column depending on whether the character is the first of a
+    refilled buffer -- 4-character buffer, the NEL at index 4 (first of the second buffer) vs index 3 *)
+Definition fd_ops : list xop := [XBase OGet; XMovePlain; XBase OGet; XMovePlain; XBase OGet; XMovePlain].
+Fixpoint run_xops (c : cfg) (isPlain : N -> bool) (fuel : nat) (r : reader) (ops : list xop) : option reader :=
+  match ops with
+  | [] => Some r
+  | o :: rest => match do_xop c isPlain fuel r o with Ok (r', _) => run_xops c isPlain fuel r' rest | Err _ => None end
+  end.
+Theorem T04_column_depends_on_alignment_refuted :
+  (* 'x' x x x NEL y  : all six characters consumed, column 6 instead of 7 *)
+  option_map col (run_xops (mk_cfg 3 false 4 8 2 true true) (is_plain false) 16
+                           (mk_reader [[0x78; 0x78; 0x78; 0x78; 0x85; 0x79]]) fd_ops) = Some 6 /\
+  (* 'x' x x NEL x y  : the same number of characters, column 7 *)
+  option_map col (run_xops (mk_cfg 3 false 4 8 2 true true) (is_plain false) 16
+                           (mk_reader [[0x78; 0x78; 0x78; 0x85; 0x78; 0x79]]) fd_ops) = Some 7 /\
+  (* repaired: 7 in both alignments *)
+  option_map col (run_xops (with_nelcol (mk_cfg 3 false 4 8 2 true true) true) (is_plain false) 16
+                           (mk_reader [[0x78; 0x78; 0x78; 0x78; 0x85; 0x79]]) fd_ops) = Some 7.
+Proof. repeat split; vm_compute; reflexivity. Qed.
+
+(** non-vacuity of T04_tokens_runs' side condition and a run across three refills of a 4-character buffer *)
+Example T04_tokens_nonvacuous :
+  isWS (mk_cfg 1 false 4 8 2 true true) 0xA = true /\ nelcol (with_nelcol (mk_cfg 1 false 4 8 2 true true) true) = true /\
+  match get_spaces (with_nelcol (mk_cfg 3 false 4 8 2 true true) true) 64
+                   (mk_reader [[0x20; 0x0D]; [0x0A; 0x09; 0x0D; 0x0D; 0x0A; 0x20; 0x0A; 0x78]]) with
+  | Ok (r', (b, l)) => b = true /\ l = [0x20; 0x0A; 0x09; 0x0A; 0x0A; 0x20; 0x0A] /\ rpos r' = (5, 1) /\ ccur r' = [0x78]
+  | Err _ => False
+  end.
+Proof. vm_compute. repeat split; reflexivity. Qed.
 
 (* ------------------------------------------------------------------------------------------- *)
 (** * findings, stated on the as-written model by evaluation of concrete witnesses *)
